@@ -59,6 +59,14 @@ def run(ctx):
         nontriv = any(t[1] is not None for t in out["transmissions"])
         ctx.case(rep, nontrivial=nontriv, sample=dict(rep, transmissions=out["transmissions"][:6]))
         ctx.count("transmissions", len(out["transmissions"]))
+        # transmission_tree() carries exactly the sourced transmissions; for SIR every node has at most one infector
+        want = sorted([t, u, v] for t, u, v in out["transmissions"] if u is not None)
+        if out.get("tree") != want:
+            ctx.violation("%s: transmission_tree() differs from transmissions()" % rep["entry"], dict(rep, tree=out.get("tree"), transmissions=out["transmissions"]))
+            continue
+        if rq["forest"] and out.get("tree_indeg_max", 0) > 1:
+            ctx.violation("%s: SIR transmission tree is not a forest (a node has two infectors)" % rep["entry"], dict(rep, tree=out.get("tree")))
+            continue
         if not r.get("ok"):
             ctx.disagreement("tv-driver", dict(rep, resp=r))
         elif not r["holds"]:
